@@ -271,7 +271,7 @@ def main():
     import c04
     stasks = []
     slice_b = F.seq_enumerated()[1::6 if quick else 2] + F.time_enumerated(rep.tier)[5::24 if quick else 3] + F.entry_matrix()[::4 if quick else 1]
-    slice_b += [c for c in F.alloc_templates() if 'write' in c.name or 'temps' in c.name or 'global-index' in c.name]
+    slice_b += [c for c in F.alloc_templates() if 'write' in c.name or 'temps' in c.name or 'global-index' in c.name or 'high-addr' in c.name]
     for c in slice_b:
         c04.add_tasks(stasks, c.with_(word=2), full=not quick, wall=300)
     nsz = [0]
@@ -302,7 +302,7 @@ def main():
     rep.rule = ('(b) family slices swept over every stack size; (c) templates compiled at pairs of word sizes %s with sign-extended inputs under recorded no-overflow conditions; '
                 '(a)/(d) auxiliary: %d programs compiled in 8 processes (PYTHONHASHSEED 0/1/2/12345/random, python -O, -OO, reversed compilation order) and with/without lint' % (pairs, len(aux_cases)))
     rep.functions_encoded = ['emitted code under two stack sizes / two word sizes (word-size parametrisation of generator.py and the `w` suffixes of stdlib.py)']
-    rep.bounds = dict(word_size_pairs=pairs, stack_sizes='0..56 words', outside='(c): obligations that need products/quotients of two symbolic operands at two widths time out in the solver and are excluded '
+    rep.bounds = dict(word_size_pairs=pairs, stack_sizes='0..56 words, 500 words, and 16375/16377/16378 words (largest accepted at 16 bit; state addresses cross the sign bit)', outside='(c): obligations that need products/quotients of two symbolic operands at two widths time out in the solver and are excluded '
                       '(each width is decided separately in C09); (a) and (d) are not solver-decidable')
     rep.assumptions = ['Sphinx machine model (DESIGN section 3)', '"values fit the narrower word" = no signed overflow in any arithmetic instruction the narrow run executes']
     return rep.finish()
